@@ -629,10 +629,13 @@ class HTMLConverter(PDFConverter[AnyIO]):
 
     def receive_layout(self, ltpage: LTPage) -> None:
         def show_group(item: Union[LTTextGroup, TextGroupElement]) -> None:
-            if isinstance(item, LTTextGroup):
-                self.place_border("textgroup", 1, item)
-                for child in item:
-                    show_group(child)
+            # explicit stack: groups nest as deep as the page has text boxes
+            stack = [item]
+            while stack:
+                item = stack.pop()
+                if isinstance(item, LTTextGroup):
+                    self.place_border("textgroup", 1, item)
+                    stack.extend(reversed(list(item)))
 
         def render(item: LTItem) -> None:
             child: LTItem
@@ -784,16 +787,22 @@ class XMLConverter(PDFConverter[AnyIO]):
 
     def receive_layout(self, ltpage: LTPage) -> None:
         def show_group(item: LTItem) -> None:
-            if isinstance(item, LTTextBox):
-                self.write(
-                    '<textbox id="%d" bbox="%s" />\n'
-                    % (item.index, bbox2str(item.bbox)),
-                )
-            elif isinstance(item, LTTextGroup):
-                self.write('<textgroup bbox="%s">\n' % bbox2str(item.bbox))
-                for child in item:
-                    show_group(child)
-                self.write("</textgroup>\n")
+            # explicit stack: groups nest as deep as the page has text boxes;
+            # None marks the end of the group opened before it
+            stack: List[Optional[LTItem]] = [item]
+            while stack:
+                obj = stack.pop()
+                if obj is None:
+                    self.write("</textgroup>\n")
+                elif isinstance(obj, LTTextBox):
+                    self.write(
+                        '<textbox id="%d" bbox="%s" />\n'
+                        % (obj.index, bbox2str(obj.bbox)),
+                    )
+                elif isinstance(obj, LTTextGroup):
+                    self.write('<textgroup bbox="%s">\n' % bbox2str(obj.bbox))
+                    stack.append(None)
+                    stack.extend(reversed(list(obj)))
 
         def render(item: LTItem) -> None:
             child: LTItem
